@@ -522,7 +522,9 @@ def nnx_streams(n, o0, o1, o2, o3, o4, a0, a1, a2, a3, a4):
         if backups is not None or real != name:
           continue
         newseed = 100 + len(used) + 10 * a
-        nnx.reseed(rngs, **{name: newseed})
+        # reseed with an int seed (stream 'default') or with a ready-made key
+        # array (stream 'params'): both must restart the stream at count 0
+        nnx.reseed(rngs, **{name: newseed if a == 0 else TKey(('seed', newseed))})
         seeds[name] = newseed
         count[name] = 0
       elif op == 5:                       # __call__ == default stream
